@@ -266,7 +266,29 @@ def r_average(ctx, model):
         wts = kw.get("weights", node.args[3] if len(node.args) > 3 else None)
         return fn, arr, axis, wts
 
+    def sum_form(node):
+        """numpy.sum(inner * w, axis=k) [/ numpy.sum(w)] -> (normalised?, inner node, axis node, weights node)"""
+        normalised = False
+        if isinstance(node, ast.BinOp) and isinstance(node.op, ast.Div) and isinstance(node.right, ast.Call) \
+                and dotted_name(node.right.func) == "numpy.sum" and len(node.right.args) == 1 and isinstance(node.right.args[0], ast.Name):
+            normalised, wn, node = True, node.right.args[0], node.left
+        else:
+            wn = None
+        if isinstance(node, ast.Call) and dotted_name(node.func) == "numpy.sum" and node.args and isinstance(node.args[0], ast.BinOp) \
+                and isinstance(node.args[0].op, ast.Mult):
+            kw = {k.arg: k.value for k in node.keywords}
+            l, r = node.args[0].left, node.args[0].right
+            if isinstance(l, ast.Name):
+                l, r = r, l
+            if isinstance(r, ast.Name) and (wn is None or wn.id == r.id):
+                return normalised, l, kw.get("axis", node.args[1] if len(node.args) > 1 else None), r
+        return None
+
     outer = avg_call(ret.value)
+    sf = sum_form(ret.value) if not outer else None
+    if sf:
+        normalised, inner_node, axis_node, wnode = sf
+        outer = ("numpy.average" if normalised else "numpy.sum (weights not normalised)", inner_node, axis_node, wnode)
     inner = avg_call(outer[1]) if outer else None
     if not outer or not inner:
         raise AnalysisError(f"average_over_modes does not return nested numpy.average calls: {src(ret.value)[:100]}")
